@@ -121,6 +121,18 @@ def strip_comments(src):
 
 FORBIDDEN = re.compile(r'\bsorry\b|\badmit\b|^\s*axiom\s|native_decide|bv_decide|implemented_by|\bunsafe\s|maxHeartbeats\s+0|@\[extern')
 
+def import_closure(modules):
+    """project files (relative paths) the given modules depend on, transitively"""
+    seen, todo = [], list(modules)
+    while todo:
+        m = todo.pop()
+        rel = m.replace('.', '/') + '.lean'
+        if rel in seen or not os.path.exists(os.path.join(LEAN, rel)): continue
+        seen.append(rel)
+        for imp in re.findall(r'^import\s+(\S+)', open(os.path.join(LEAN, rel)).read(), re.M):
+            if imp.split('.')[0] in ('SlacModel', 'SlacProofs', 'SlacProps', 'Driver'): todo.append(imp)
+    return sorted(seen)
+
 def audit(modules, workdir):
     """#print axioms for every theorem of the property modules; forbidden-token grep over all model/proof sources."""
     thms = []
@@ -143,13 +155,10 @@ def audit(modules, workdir):
         if t not in res: bad.append((t, 'no #print axioms output'))
         elif not res[t] <= ALLOWED_AXIOMS: bad.append((t, 'axioms ' + ','.join(sorted(res[t] - ALLOWED_AXIOMS))))
     grep_hits = []
-    for d in ('SlacModel', 'SlacProofs', 'SlacProps'):
-        for root, _, files in os.walk(os.path.join(LEAN, d)):
-            for fn in files:
-                if fn.endswith('.lean'):
-                    src = strip_comments(open(os.path.join(root, fn)).read())
-                    for i, line in enumerate(src.split('\n')):
-                        if FORBIDDEN.search(line): grep_hits.append(f'{d}/{fn}: {line.strip()[:80]}')
+    for rel in import_closure(modules + ['Driver.Main']):
+        src = strip_comments(open(os.path.join(LEAN, rel)).read())
+        for i, line in enumerate(src.split('\n')):
+            if FORBIDDEN.search(line): grep_hits.append(f'{rel}: {line.strip()[:80]}')
     axioms_used = sorted(set().union(*res.values())) if res else []
     return dict(theorems=[t for _, t in thms], discharged=[t for _, t in thms if t in res and res[t] <= ALLOWED_AXIOMS],
                 bad=bad, grep_hits=grep_hits, axioms_used=axioms_used, raw=out[-2000:] if bad else '')
@@ -235,6 +244,14 @@ def main():
             if s is not None and oracle == 'spec':
                 falsifier_cases += 1
                 if view(e) != view(s): dis_spec.append((k, line, e, s))
+        if st.get('rust_oracle'):
+            with open(inp) as fi:
+                ro = subprocess.run([bins[build], 'oracle'], stdin=fi, stdout=subprocess.PIPE, env=ENV, timeout=3600).stdout.decode(errors='replace').split('\n')
+            for k, line in enumerate(lines):
+                if k < len(ro) and ro[k] != 'n/a':
+                    falsifier_cases += 1
+                    e = exp[k] if k < len(exp) else 'missing'
+                    if view(e) != view(ro[k]): dis_spec.append((k, line, e, ro[k]))
         # Rust-side / python-side oracles on the implementation's own answers
         for chk in st.get('laws', []):
             for (k, line, e, why) in predicates.LAWS[chk](lines, exp):
